@@ -50,8 +50,8 @@ def ml_str(s):
 
 
 def case_ml(c):
-    return ("{ sc_id = z (%d); sc_q = %s; sc_ctx = %s; sc_sql = %s; sc_tree = %s; sc_re = %s; sc_pf = %s; sc_jg = %s; sc_rg = %s; sc_dbs = %s }"
-            % (c["id"], c["ast_ml"], c["ctx_ml"], ml_str(c["sql"][0]), c["tree_ml"], c["re_ml"], c["pf_ml"], c.get("jg_ml") or "[]",
+    return ("{ sc_id = z (%d); sc_q = %s; sc_ctx = %s; sc_fin = %s; sc_sql = %s; sc_tree = %s; sc_re = %s; sc_pf = %s; sc_jg = %s; sc_rg = %s; sc_dbs = %s }"
+            % (c["id"], c["ast_ml"], c["ctx_ml"], "true" if c["ctx"].get("finalize", True) else "false", ml_str(c["sql"][0]), c["tree_ml"], c["re_ml"], c["pf_ml"], c.get("jg_ml") or "[]",
                c.get("rg_ml") or "[]", c["dbs_ml"]))
 
 
@@ -271,7 +271,9 @@ def run_semantic(ck, text_cases, recases=None):
                 continue
             rep = {"property": "C07", "kind": "the SQL of the implementation does not return the reference answer",
                    "query": c["query"], "ctx": c["ctx"], "db": db, "expected": d.get("want"), "got": d.get("got"),
-                   "expected_is": "every matching line (model/LogqlSem.v log_rows); with ctx.limit = L > 0 the answer must be some top-L subset of it in the query direction",
+                   "expected_is": ("every matching line (model/LogqlSem.v log_rows2); with ctx.limit = L > 0 the answer must be some top-L subset of it in the query direction"
+                                   if c["ctx"].get("finalize", True) else
+                                   "Plan(script, false), the statement that feeds the in-process engine: EVERY matching line whatever ctx.limit says, in timestamp order of the query direction"),
                    "sql": c["sql"][0], "guards": {"width<=63": v["width"], "absent_guard": d["absent"], "oracle_ok": d["oracle"]},
                    "same_as_model": d["same"], "origin": origin.get(cid),
                    "replay": "harness logqlsql --cases <query,ctx> gives the SQL; evaluate it over db (model/SqlEval.v) or on a ClickHouse with these rows"}
@@ -313,6 +315,9 @@ def run_semantic(ck, text_cases, recases=None):
     ck.coverage["distinct_nontrivial"] += len(nontrivial)
     ck.coverage["rule"] += ("semantic layer: (query, ctx, database) triples; the implementation's SQL is evaluated twice (two tie-breakings) and judged by sem_b; "
                             "non-trivial = the reference answer keeps some samples and drops others, or a LIMIT cuts it; distinct by content. ")
+    ck.extra.setdefault("input_distribution", {})["plans"] = {
+        "Plan(script, true)": sum(1 for i in res if byid[i]["ctx"].get("finalize", True)),
+        "Plan(script, false) (breakpoint plans)": sum(1 for i in res if not byid[i]["ctx"].get("finalize", True))}
     classes = {}
     for cid in res:
         for k in set(byid[cid].get("class") or ["plain-selector"]):
